@@ -259,6 +259,8 @@ let check (b : block) : verdict list =
     let hist = ref [init] in           (* states, newest first *)
     let prev_edit = ref None in
     let judged_ok = ref true in        (* false after the first failing step: later steps are not judged *)
+    let latent : string option ref = ref None in
+    let older_edits = ref [] in
     let prev_circ = ref None in
     let strategies = ref [] in
     List.iter (fun (s : step) ->
@@ -356,66 +358,85 @@ let check (b : block) : verdict list =
                 (List.sort_uniq compare !hist)
             | _ -> [] in
           let cands = (match primary with Some p -> [p] | None -> []) @ (match alt with Some a -> [a] | None -> []) @ shrunk in
+          (* ---- the input class of this step (decided from the history and the returned strategy only,
+             in a fixed order) and the first class met earlier in this history (a defect of an earlier
+             step may stay invisible until a later one: the stored clause list is already wrong) ---- *)
+          let new_var = List.exists (fun c -> List.exists (fun l -> abs l > st.n) c) adds in
+          let unit_old = (match adds, rmvs with [[l]], [] -> abs l <= st.n | _ -> false) in
+          let earlier_undo = List.mem "Undo" !strategies in
+          let earlier_unit = List.mem "UnitClause" !strategies in
+          let earlier_subdag = List.mem "SubDAGReplacement" !strategies in
+          let own_class : string option =
+            if mode = "nnf" then begin
+              if new_var && strat = "Tautology" then Some "edit:new-variable-clause"
+              else if new_var && strat = "Recompile" then Some "edit:nnf-recompile-forgets-model"
+              else if rmvs <> [] then Some "edit:nnf-removal"
+              else None
+            end else begin
+              let cls = match st.cls with Some c -> c | None -> [] in
+              let present_rmvs = List.filter (fun c -> List.mem c cls) rmvs in
+              let core_shrinks = match primary with
+                | Some post -> List.exists (fun l -> not (List.mem l (sem_core post))) (sem_core st)
+                | None -> false in
+              (* a feature that is unconstrained in the formula before the edit *)
+              let free_feature =
+                List.exists (fun v -> List.for_all (fun m -> List.mem (m lxor (1 lsl (v - 1))) st.models) st.models)
+                  (List.init st.n (fun i -> i + 1)) in
+              (* the exact inverse of an OLDER edit of this history (other edits in between) *)
+              let inverse_of_older =
+                List.exists (fun p -> e <> [] && List.sort compare (List.map (fun (a, c) -> (not a, c)) p) = e) !older_edits in
+              if strat = "Undo" && not is_inverse && inverse_of_older then Some "edit:undo-stale"
+              else if strat = "Undo" && not is_inverse then Some "edit:undo-partial-match"
+              else if earlier_undo then Some "edit:after-undo-stale-cnf"
+              else if rmvs <> [] && unit_reducible cls then Some "edit:clause-removal"
+              else if List.length rmvs >= 2 then Some "edit:multi-clause-removal"
+              else if adds <> [] && not unit_old && cls = [] then Some "edit:add-on-empty-cnf"
+              else if (match adds with [[l]] -> abs l <= st.n | _ -> false) && rmvs <> [] then Some "edit:unit-add-drops-removal"
+              else if present_rmvs <> [] && core_shrinks && strat = "SubDAGReplacement" then Some "edit:removal-frees-core"
+              else if new_var && strat = "SubDAGReplacement" then Some "edit:new-variable-subdag"
+              else if free_feature && strat = "SubDAGReplacement" then Some "edit:free-feature-subdag"
+              else if earlier_unit && strat = "SubDAGReplacement" then Some "edit:subdag-after-unit-edit"
+              else if strat = "UnitClause" && earlier_unit && earlier_subdag then Some "edit:unit-after-subdag"
+              else None
+            end in
+          let cls_for_failure = match own_class with Some c -> Some c | None -> !latent in
+          let step_failed = ref false in
           if !judged_ok && cands <> [] then begin
             bump "C11_steps_judged";
             match s.panic with
             | Some msg ->
-              judged_ok := false;
-              let after_unit = mode = "cnf" && List.mem "UnitClause" !strategies in
-              add (Viol ((if after_unit then "edit:panic-after-unit-edit" else "edit:panic"),
-                         Printf.sprintf "%s panicked: %s" ctx msg))
+              judged_ok := false; step_failed := true;
+              let signature =
+                if mode = "cnf" && earlier_unit then "edit:panic-after-unit-edit"
+                else match cls_for_failure with Some c -> c ^ ":panic" | None -> "edit:panic" in
+              add (Viol (signature, Printf.sprintf "%s panicked: %s" ctx msg))
             | None ->
               let verdicts = List.map (fun c -> (c, judge s c)) cands in
               (match List.find_opt (fun (_, f) -> f = []) verdicts with
                | Some (c, _) ->
                  hist := c :: !hist
                | None ->
-                 judged_ok := false;
+                 judged_ok := false; step_failed := true;
                  let (exp, f) = List.hd verdicts in
                  hist := exp :: !hist;
                  let kinds = List.sort_uniq compare (List.map fst f) in
                  let msg = Printf.sprintf "%s answered %s: %s" ctx strat
                      (String.concat "; " (List.map snd (List.filteri (fun i _ -> i < 3) f))) in
-                 let new_var = List.exists (fun c -> List.exists (fun l -> abs l > st.n) c) adds in
                  let dead = match s.circ with Some c -> has_dead c | None -> false in
-                 let unit_old = (match adds, rmvs with [[l]], [] -> abs l <= st.n | _ -> false) in
-                 let earlier_undo = List.mem "Undo" !strategies in
                  let signature =
-                   if mode = "nnf" then begin
-                     if new_var && strat = "Tautology" then "edit:new-variable-clause"
-                     else if new_var && strat = "Recompile" then "edit:nnf-recompile-forgets-model"
-                     else if rmvs <> [] then "edit:nnf-removal"
-                     else if unit_old && kinds = [Core] && dead then "edit:dead-branch-core"
-                     else sig_of_kind (List.hd kinds)
-                   end else begin
-                     let cls = match st.cls with Some c -> c | None -> [] in
-                     let present_rmvs = List.filter (fun c -> List.mem c cls) rmvs in
-                     let post = exp in
-                     let core_shrinks = List.exists (fun l -> not (List.mem l (sem_core post))) (sem_core st) in
-                     (* a feature that is unconstrained in the formula before the edit *)
-                     let free_feature =
-                       List.exists (fun v -> List.for_all (fun m -> List.mem (m lxor (1 lsl (v - 1))) st.models) st.models)
-                         (List.init st.n (fun i -> i + 1)) in
-                     let earlier_unit = List.mem "UnitClause" !strategies in
-                     if strat = "Undo" && not is_inverse then "edit:undo-not-inverse"
-                     else if earlier_undo then "edit:after-undo-stale-cnf"
-                     else if rmvs <> [] && unit_reducible cls then "edit:clause-removal"
-                     else if List.length rmvs >= 2 then "edit:multi-clause-removal"
-                     else if (match adds with [[l]] -> abs l <= st.n | _ -> false) && rmvs <> [] then "edit:unit-add-drops-removal"
-                     else if adds <> [] && not unit_old && cls = [] then "edit:add-on-empty-cnf"
-                     else if present_rmvs <> [] && core_shrinks && strat = "SubDAGReplacement" then "edit:removal-frees-core"
-                     else if new_var && strat = "SubDAGReplacement" then "edit:new-variable-subdag"
-                     else if free_feature && strat = "SubDAGReplacement" then "edit:free-feature-subdag"
-                     else if earlier_unit && strat = "SubDAGReplacement" then "edit:subdag-after-unit-edit"
-                     else if unit_old && kinds = [Core] && dead then "edit:dead-branch-core"
+                   match cls_for_failure with
+                   | Some c -> c
+                   | None ->
+                     if unit_old && kinds = [Core] && dead then "edit:dead-branch-core"
                      else if is_inverse then "edit:inverse-not-restored"
-                     else sig_of_kind (List.hd kinds)
-                   end in
+                     else sig_of_kind (List.hd kinds) in
                  add (Viol (signature, msg)))
           end else if s.panic <> None && !judged_ok then begin
-            judged_ok := false;
+            judged_ok := false; step_failed := true;
             add (Viol ("edit:panic", Printf.sprintf "%s panicked: %s" ctx (Option.get s.panic)))
           end else bump "C11_steps_not_judged_after_first_failure";
+          (match !latent, own_class with None, Some c -> latent := Some c | _ -> ());
+          (match !prev_edit with Some p when e <> [] -> older_edits := p :: !older_edits | _ -> ());
           if e <> [] then prev_edit := Some e;
           strategies := strat :: !strategies;
           (* ---------------- model: unit_edit ---------------- *)
@@ -423,10 +444,15 @@ let check (b : block) : verdict list =
            | "UnitClause", [[l]], Some pc, Some c ->
              bump "C11_unit_edit_compared";
              let m = E.unit_edit pc (Conv.z_of_int l) in
-             if m <> c then
+             if m = c then bump "C11_unit_edit_exact"
+             else if !judged_ok then
+               (* the oracle accepts every answer of this step, yet the vector is not the model's *)
                add (Diff ("unit_edit", Printf.sprintf "%s: the model's unit_edit differs from the dumped vector (%d vs %d nodes)"
                             ctx (List.length m) (List.length c)))
-             else bump "C11_unit_edit_exact"
+             else
+               (* this or an earlier step is a reported violation: the graph behind the vector is not
+                  the graph the model starts from any more *)
+               bump "C11_unit_edit_differs_after_a_violation"
            | _ -> ())
         end;
         (* ---------------- model: the dumped vector ---------------- *)
